@@ -88,6 +88,10 @@ def check_gen_chain(case, rec):
             dm = DecayMode(b, list(ds), **md)
             dd = dm.to_dict()
             dm2 = DecayMode.from_dict(dd)
+        want_meta = {"model": "", "model_params": ""}
+        want_meta.update(md)
+        if dict(dm.metadata) != want_meta or dm.bf != b or Counter(dict(dm.daughters.items())) != Counter(ds):
+            raise Mismatch("C11:mode-as-given", f"{m!r}: a mode does not hold what it was constructed with", [b, sorted(ds), want_meta], [dm.bf, dm.daughters.to_list(), dict(dm.metadata)])
         if mode_fields(dm) != mode_fields(dm2):
             raise Mismatch("C11:mode-roundtrip", f"{m!r}", mode_fields(dm), mode_fields(dm2))
         if dd["fs"] != sorted(ds):
